@@ -535,3 +535,11 @@ func storesToField(fn *ssa.Function, f *types.Var) []*ssa.Store {
 func isFieldRef(v ssa.Value, f *types.Var) bool {
 	return endsInField(v, f, false)
 }
+
+// constantInt64 returns the integer value of a typed constant object.
+func constantInt64(c *types.Const) (int64, bool) {
+	if c == nil || c.Val().Kind() != constant.Int {
+		return 0, false
+	}
+	return constant.Int64Val(c.Val())
+}
